@@ -266,6 +266,7 @@ func normalizeForall(op string, bound []string, body string) string {
 	var newVars []string
 	var guards []*sexp
 	defined := map[string]bool{}
+	defRows := map[string]bool{}
 	for _, j := range bound {
 		for ri := range reads {
 			r := reads[ri]
@@ -289,6 +290,7 @@ func normalizeForall(op string, bound []string, body string) string {
 			tree = tree.subst(j, sol)
 			// remaining reads must be re-collected after substitution
 			defined[j] = true
+			defRows[r.row.String()] = true
 			newVars = append(newVars, u)
 			break
 		}
@@ -306,6 +308,10 @@ func normalizeForall(op string, bound []string, body string) string {
 	for _, r := range reads {
 		if r.idx.isAtom() {
 			pats = append(pats, r)
+			continue
+		}
+		if !defRows[r.row.String()] {
+			// reads of other rows stay ordinary terms (no trigger, no auxiliary variable)
 			continue
 		}
 		quantCounter++
